@@ -425,7 +425,7 @@ def jit_flow(repo, res):
 
 @rule(
     "JIT-DIAGONAL",
-    ["C10"],
+    ["C10", "C12"],
     "compile_forms interpreted with part=\"diagonal\" on stand-in forms: a bilinear form on a mixed space is replaced by the sum of exactly its "
     "diagonal blocks (j, j) - absent blocks skipped, an all-absent diagonal rejected - before the signature is computed and the generator "
     "is called; a bilinear form without sub-elements, a linear form and a functional are compiled as given; with part=\"full\" nothing is replaced",
@@ -526,6 +526,7 @@ def jit_diagonal(repo, res):
         ("second of two forms is mixed, diagonal", [linear, mixed], "diagonal", [linear, FormSum([b00, b11])]),
         ("mixed bilinear form, full", [mixed], "full", [mixed]),
     ]
+    res.ob(f"{f.key}:caller's-list-unchanged")
     for label, forms, part, want in cases:
         key = f"{f.key}:{label}"
         res.ob(key)
@@ -539,6 +540,10 @@ def jit_diagonal(repo, res):
                 res.fail(key, f"{label}: {what} {got}, expected {want}: part=\"diagonal\" replaces a bilinear form on a mixed space by the sum of its diagonal blocks (j, j) and "
                          "leaves every other form - and every form under part=\"full\" - as given", loc)
                 break
+        if len(lst) != len(forms) or any(a is not b for a, b in zip(lst, forms)):
+            res.fail(f"{f.key}:caller's-list-unchanged", f"{label}: after the call the caller's list holds {lst} instead of {list(forms)}: the replacement is written into the "
+                     "argument, so the next compilation of the same list - e.g. with part=\"full\" - compiles the diagonal part and gives a different kernel "
+                     "for the same request (state leaking from one compilation into the next)", loc, props=("C12",))
         if part == "diagonal":
             bad = [e for e in log if e[0] == "extract_blocks" and e[2] is not False]
             if bad:
